@@ -338,11 +338,15 @@ class HistoryRunner:
                 return self._last
         return None
 
-    def op_move(self):
-        o = self.pick(lambda o: bool(self.rels(o, ("direct", "role"))))
+    def op_move_role(self):
+        """A move into a list served by a role-tag accessor, the donor taken from ANOTHER fragment/resource whenever one exists."""
+        return self.op_move(kinds=("role",), other=True)
+
+    def op_move(self, kinds=("direct", "role"), other=None):
+        o = self.pick(lambda o: bool(self.rels(o, kinds)))
         if o is None:
             return None
-        name, acc = self.rng.choice(self.rels(o, ("direct", "role")))
+        name, acc = self.rng.choice(self.rels(o, kinds))
         lst = getattr(o, name)
         # an existing object of a compatible class from elsewhere (for role lists: one stored under the same role tag);
         # half of the time prefer a donor living in another fragment/resource (cross-fragment move)
@@ -350,7 +354,7 @@ class HistoryRunner:
         role_tag = getattr(acc, "role_tag", None)
         xts = set(getattr(acc, "xtypes", []) or [])
         here = self.model._loader.find_fragment(o._element)
-        want_other = self.rng.random() < 0.5
+        want_other = self.rng.random() < 0.5 if other is None else other
 
         def ok(x):
             if cls is None or not isinstance(x, cls) or x._element is o._element or o._element in list(x._element.iterdescendants()):
